@@ -176,7 +176,7 @@ def handle : List String → String
   | ["rix", ra, packs, files] =>
     if ra = "0" then rixObs false packs files else if ra = "1" then rixObs true packs files else "bad-op"
   | ["repo", variant, seed] =>
-    if ["backup", "prune-fast", "prune-copy", "prune-all", "copy"].contains variant ∧ seed.toNat?.isSome then "ok" else "bad-op"
+    if ["backup", "prune-fast", "prune-copy", "prune-all", "copy", "merge"].contains variant ∧ seed.toNat?.isSome then "ok" else "bad-op"
   | ["repair", variant, seed] =>
     if ["all", "some", "none", "all-readall", "some-readall", "none-readall", "badhint"].contains variant ∧ seed.toNat?.isSome
     then "ok" else "bad-op"
